@@ -1766,3 +1766,418 @@ Theorem C14_alloc_oom_drift_refuted :
     Some (Alloc.ODrop false 0%N, [], 3%Z, 0%Z, 3%nat, [0%N], [2%N; 3%N; 4%N], ([], [], [], []), true).
 Proof. exact AllocExamples.oom_drift_refuted. Qed.
 Print Assumptions C14_alloc_oom_drift_refuted.
+
+(** * Package C14z: bounded-store models of the remaining operations
+
+    Sections 14 - 17 use ONE statement per theorem family for every call of the interface: the call is a value
+    ([qcall] / [cqcall] / [zvcall] / [tcall]), [*run_c] the bounded run, [*run_u] the unbounded run of the existing
+    models, [*call_ok] the hypothesis on the operands, [*call_spec] the specification of the result. *)
+From OxiVerif Require Import DD.QuantLemmas DD.QuantSpecProofs DD.QuantTopProofs.
+From OxiVerif Require Import Mgr.OomBddQ Mgr.OomBddQProofs Mgr.OomBddQSafe Mgr.OomBddQThms Mgr.OomBddQExamples.
+From OxiVerif Require Import DD.QuantBcdd DD.QuantBcddLemmas DD.SubstBcddProofs DD.QuantBcddTop.
+From OxiVerif Require Import Mgr.OomBcddQ Mgr.OomBcddQProofs Mgr.OomBcddQSafe Mgr.OomBcddQThms Mgr.OomBcddQExamples.
+From OxiVerif Require Import DD.ZbddRestrictTop DD.ZbddEvalProofs.
+From OxiVerif Require Import Mgr.OomZbddV Mgr.OomZbddVProofs Mgr.OomZbddVSafe Mgr.OomZbddVThms Mgr.OomZbddVExamples.
+From OxiVerif Require Import DD.Tdd DD.ApplyTdd DD.ApplyTddBase DD.ApplyTddProofs DD.ApplyTddTop.
+From OxiVerif Require Import Mgr.OomTdd Mgr.OomTddProofs Mgr.OomTddSafe Mgr.OomTddThms Mgr.OomTddExamples.
+
+(** ** 14. Quantification, apply-and-quantify, restrict, substitute of the plain BDD kind (package C14z)
+
+    [qrun_c gt C cget cadd cap par pin s c k] is the bounded run of the call [k : qcall]
+    ([KQuant] = forall / exists / unique, [KApplyQuant] = apply_forall / apply_exists / apply_unique with
+    any of the 8 operators, [KRestrict], [KSubst] = substitute incl. substitute_prepare) in the error monad of the
+    code (Mgr/OomBddQ.v, mirrors quant / apply_quant / restrict / substitute_prepare / substitute of
+    oxidd-rules-bdd/src/simple/apply_rec.rs incl. their inner apply_not / apply_bin / apply_ite calls),
+    [qrun_u] the unbounded run of DD/Quant.v (C04).  [par] = recursor of the algorithm's own recursion, [pin] =
+    recursor of the inner calls; [QCacheOK] = the cache invariant of the C04 theorems; [Sg] = registry of
+    substitution objects. *)
+
+Theorem C14_bddq_never_wrong : forall gt C cget cadd, 
+  forall cap par pin s c k s' c' r,
+  qrun_c gt C cget cadd cap par pin s c k = GOk s' c' r ->
+  qrun_u gt C cget cadd s c k = Some (s', c', r).
+Proof. exact qoom_never_wrong. Qed.
+Print Assumptions C14_bddq_never_wrong.
+
+Theorem C14_bddq_never_wrong_sem : forall gt C cget cadd, lossy cget cadd -> forall Sg, 
+  forall cap par pin s c k s' c' r,
+  BddOK s -> QCacheOK cget Sg s c -> qcall_ok Sg s k ->
+  qrun_c gt C cget cadd cap par pin s c k = GOk s' c' r ->
+  BddOK s' /\ QCacheOK cget Sg s' c' /\ intact s s' /\ ref_ok s' r /\ qcall_spec s k s' r.
+Proof. exact qoom_never_wrong_sem. Qed.
+Print Assumptions C14_bddq_never_wrong_sem.
+
+Theorem C14_bddq_safe : forall gt C cget cadd, lossy cget cadd -> forall Sg, 
+  forall cap par pin s c k s' c',
+  BddOK s -> QCacheOK cget Sg s c -> qcall_ok Sg s k ->
+  qrun_c gt C cget cadd cap par pin s c k = GOom s' c' ->
+  qfailed_ok C cget Sg cap s s' c'.
+Proof. exact qoom_safe. Qed.
+Print Assumptions C14_bddq_safe.
+
+Theorem C14_bddq_no_panic : forall gt C cget cadd, lossy cget cadd -> forall Sg, 
+  forall cap par pin s c k,
+  BddOK s -> QCacheOK cget Sg s c -> qcall_ok Sg s k ->
+  qrun_c gt C cget cadd cap par pin s c k <> GStuck.
+Proof. exact qoom_no_panic. Qed.
+Print Assumptions C14_bddq_no_panic.
+
+Theorem C14_bddq_exact : forall gt C cget cadd, lossy cget cadd -> forall Sg, 
+  forall cap par pin s c k,
+  BddOK s -> QCacheOK cget Sg s c -> qcall_ok Sg s k ->
+  exists su cu ru, qrun_u gt C cget cadd s c k = Some (su, cu, ru) /\
+    qcall_spec s k su ru /\
+    qexact C cget Sg cap s (qrun_c gt C cget cadd cap par pin s c k) su cu ru.
+Proof. exact qoom_exact. Qed.
+Print Assumptions C14_bddq_exact.
+
+Theorem C14_bddq_outcome_recursor_indep : forall gt C cget cadd, lossy cget cadd -> forall Sg, 
+  forall cap par par' pin pin' s c k,
+  BddOK s -> QCacheOK cget Sg s c -> qcall_ok Sg s k ->
+  gres_code (qrun_c gt C cget cadd cap par pin s c k) =
+  gres_code (qrun_c gt C cget cadd cap par' pin' s c k).
+Proof. exact qoom_outcome_recursor_indep. Qed.
+Print Assumptions C14_bddq_outcome_recursor_indep.
+
+Theorem C14_bddq_retry : forall gt C cget cadd, 
+  forall cap par pin s c k su cu ru,
+  qrun_u gt C cget cadd s c k = Some (su, cu, ru) -> node_count su <= cap ->
+  qrun_c gt C cget cadd cap par pin s c k = GOk su cu ru.
+Proof. exact qoom_retry. Qed.
+Print Assumptions C14_bddq_retry.
+
+Theorem C14_bddq_monotone : forall gt C cget cadd, 
+  forall cap cap' par par' pin pin' s c k s' c' r, cap <= cap' ->
+  qrun_c gt C cget cadd cap par pin s c k = GOk s' c' r ->
+  qrun_c gt C cget cadd cap' par' pin' s c k = GOk s' c' r.
+Proof. exact qoom_monotone. Qed.
+Print Assumptions C14_bddq_monotone.
+
+(** non-vacuity: every outcome occurs on concrete tables; the hypotheses are satisfiable *)
+Theorem C14_bddq_example_garbage : match qrun_nc 7 false ex3 (KApplyQuant QExists OXor (RN 5) (RN 2) (RN 3)) with
+  | GOom s' _ =>
+      s_handles s' = s_handles ex3 /\ bdd_ok_b s' = true /\ node_count s' = 7 /\
+      forallb (fun p => match find_node s' (fst p) with
+                        | Some nd => same_node nd (snd p) | None => false end)
+              (PositiveMap.elements (s_nodes ex3)) = true
+  | _ => False
+  end.
+Proof. exact ex3_apply_quant_garbage. Qed.
+Print Assumptions C14_bddq_example_garbage.
+
+Theorem C14_bddq_example_exact : forall cap p,
+  let k := KApplyQuant QExists OXor (RN 5) (RN 2) (RN 3) in
+  (8 <= cap -> exists su, qrun_nc cap p ex3 k = GOk su tt (RN 2) /\ node_count su = 8) /\
+  (cap < 8 -> exists s', qrun_nc cap p ex3 k = GOom s' tt /\
+                         qfailed_ok unit nc_get (sg_one []) cap ex3 s' tt).
+Proof. exact ex3_exact. Qed.
+Print Assumptions C14_bddq_example_exact.
+
+Theorem C14_bddq_example_subst_exact : forall cap p,
+  let k := KSubst (RN 2) [(2, RN 2)] 0%N in
+  (4 <= cap -> exists su, qrun_nc cap p exsp k = GOk su tt (RN 2) /\ node_count su = 4) /\
+  (cap < 4 -> exists s', qrun_nc cap p exsp k = GOom s' tt /\
+                         qfailed_ok unit nc_get (sg_one [(2, RN 2)]) cap exsp s' tt).
+Proof. exact exsp_exact. Qed.
+Print Assumptions C14_bddq_example_subst_exact.
+
+(** ** 15. The same for the complement-edge BDD kind (package C14z; Mgr/OomBcddQ.v, mirrors
+    complement_edge/apply_rec.rs: quant, apply_quant and its two dispatchers, restrict, substitute_prepare, substitute) *)
+
+Theorem C14_bcddq_never_wrong : forall lt C cget cadd cap par pin s c k s' c' r,
+  cqrun_c lt C cget cadd cap par pin s c k = GOk s' c' r ->
+  cqrun_u lt C cget cadd s c k = Some (s', c', r).
+Proof. exact cq_never_wrong. Qed.
+Print Assumptions C14_bcddq_never_wrong.
+
+Theorem C14_bcddq_never_wrong_sem : forall lt C cget cadd Sg cap par pin s c k s' c' r,
+  lossyC cget cadd -> QInv C cget Sg s c -> cqcall_ok Sg s k ->
+  cqrun_c lt C cget cadd cap par pin s c k = GOk s' c' r ->
+  QInv C cget Sg s' c' /\ intact_c s s' /\ ref_ok s' (eref r) /\ cqcall_spec s k s' r.
+Proof. exact cq_never_wrong_sem. Qed.
+Print Assumptions C14_bcddq_never_wrong_sem.
+
+Theorem C14_bcddq_safe : forall lt C cget cadd Sg cap par pin s c k s' c',
+  lossyC cget cadd -> QInv C cget Sg s c -> cqcall_ok Sg s k ->
+  cqrun_c lt C cget cadd cap par pin s c k = GOom s' c' ->
+  cqfailed_ok cget Sg cap s s' c'.
+Proof. exact cq_safe. Qed.
+Print Assumptions C14_bcddq_safe.
+
+Theorem C14_bcddq_failed_meaning : forall C (cget : C -> N -> list edge -> option edge) Sg cap s s' c',
+  cqfailed_ok cget Sg cap s s' c' ->
+  BcOK s' /\ QCacheOKC cget Sg s' c' /\ extends s s' /\
+  s_handles s' = s_handles s /\
+  (forall id nd, find_node s id = Some nd -> find_node s' id = Some nd) /\
+  (forall e, ref_ok s (eref e) -> ref_ok s' (eref e) /\ forall k c0, semc s' k e c0 = semc s k e c0) /\
+  (forall h, In h (s_handles s) -> forall c0, sem_edge s' (snd h) c0 = sem_edge s (snd h) c0) /\
+  (forall id, find_node s id = None -> ~ reachable s' (handle_refs s') (RN id)) /\
+  node_count s <= node_count s' /\ cap <= node_count s'.
+Proof. exact cq_failed_meaning. Qed.
+Print Assumptions C14_bcddq_failed_meaning.
+
+Theorem C14_bcddq_no_panic : forall lt C cget cadd Sg cap par pin s c k,
+  lossyC cget cadd -> QInv C cget Sg s c -> cqcall_ok Sg s k ->
+  cqrun_c lt C cget cadd cap par pin s c k <> GStuck.
+Proof. exact cq_no_panic. Qed.
+Print Assumptions C14_bcddq_no_panic.
+
+Theorem C14_bcddq_exact : forall lt C cget cadd Sg cap par pin s c k,
+  lossyC cget cadd -> QInv C cget Sg s c -> cqcall_ok Sg s k ->
+  exists su cu ru, cqrun_u lt C cget cadd s c k = Some (su, cu, ru) /\
+    cqcall_spec s k su ru /\
+    (node_count su <= Nat.max cap (node_count s) ->
+       cqrun_c lt C cget cadd cap par pin s c k = GOk su cu ru) /\
+    (Nat.max cap (node_count s) < node_count su ->
+       exists s' c', cqrun_c lt C cget cadd cap par pin s c k = GOom s' c' /\
+                     cqfailed_ok cget Sg cap s s' c').
+Proof. exact cq_exact. Qed.
+Print Assumptions C14_bcddq_exact.
+
+Theorem C14_bcddq_outcome_recursor_indep : forall lt C cget cadd Sg cap par par' pin pin' s c k,
+  lossyC cget cadd -> QInv C cget Sg s c -> cqcall_ok Sg s k ->
+  gres_code (cqrun_c lt C cget cadd cap par pin s c k) =
+  gres_code (cqrun_c lt C cget cadd cap par' pin' s c k).
+Proof. exact cq_outcome_recursor_indep. Qed.
+Print Assumptions C14_bcddq_outcome_recursor_indep.
+
+Theorem C14_bcddq_retry : forall lt C cget cadd cap par pin s c k su cu ru,
+  cqrun_u lt C cget cadd s c k = Some (su, cu, ru) -> node_count su <= cap ->
+  cqrun_c lt C cget cadd cap par pin s c k = GOk su cu ru.
+Proof. exact cq_retry. Qed.
+Print Assumptions C14_bcddq_retry.
+
+Theorem C14_bcddq_monotone : forall lt C cget cadd cap cap' par par' pin pin' s c k s' c' r, cap <= cap' ->
+  cqrun_c lt C cget cadd cap par pin s c k = GOk s' c' r ->
+  cqrun_c lt C cget cadd cap' par' pin' s c k = GOk s' c' r.
+Proof. exact cq_monotone. Qed.
+Print Assumptions C14_bcddq_monotone.
+
+Theorem C14_bcddq_call_ok_b_spec : forall s k, cqcall_ok_b s k = true -> cqcall_ok (cq_sg_of k) s k.
+Proof. exact cqcall_ok_b_spec. Qed.
+Print Assumptions C14_bcddq_call_ok_b_spec.
+
+Theorem C14_bcddq_nc_exact : forall cap p s k, BcOK s -> cqcall_ok_b s k = true ->
+  exists su ru, cqrun_u lt_none unit enc_get enc_add s tt k = Some (su, tt, ru) /\
+    BcOK su /\ cqcall_spec s k su ru /\
+    (node_count su <= Nat.max cap (node_count s) -> cq_run_nc cap p s k = GOk su tt ru) /\
+    (Nat.max cap (node_count s) < node_count su ->
+       exists s', cq_run_nc cap p s k = GOom s' tt /\ cqfailed_ok enc_get (cq_sg_of k) cap s s' tt).
+Proof. exact cq_nc_exact. Qed.
+Print Assumptions C14_bcddq_nc_exact.
+
+Theorem C14_bcddq_example_garbage : garbage_ok (cq_quant_nc 12 false exq QExists exf (ce 2)) 12 /\
+  garbage_ok (cq_restrict_nc 12 false exq exf (ce 2)) 12 /\
+  garbage_ok (cq_aquant_nc 12 true exq QExists OAnd exf (ce 3) (ce 2)) 12 /\
+  garbage_ok (cq_subst_nc 14 false exq exf exq_pairs 0%N) 14.
+Proof. exact exq_garbage. Qed.
+Print Assumptions C14_bcddq_example_garbage.
+
+Theorem C14_bcddq_example_exact : forall cap p,
+  (13 <= cap -> exists s' r, cq_quant_nc cap p exq QExists exf (ce 2) = GOk s' tt r /\
+                  forall a, cbfun_of s' r a = quant orb [2] (cbfun_of exq exf) a) /\
+  (cap < 13 -> gres_code (cq_quant_nc cap p exq QExists exf (ce 2)) = 1).
+Proof. exact exq_exact_exists. Qed.
+Print Assumptions C14_bcddq_example_exact.
+
+(** ** 16. ZBDD subset0 / subset1 / change, restrict, var_edge / not_var_edge (package C14z; Mgr/OomZbddV.v,
+    mirrors subset, restrict, restrict_base, var_edge of oxidd-rules-zbdd/src/apply_rec.rs incl. the don't-care loops) *)
+
+Theorem C14_zbddv_never_wrong : forall gt C cget cadd, 
+  forall cap par pin fuel s c k s' c' r,
+  zvrun_c gt C cget cadd cap par pin fuel s c k = GOk s' c' r -> zvrun_u gt C cget cadd fuel s c k = Some (s', c', r).
+Proof. exact zv_never_wrong. Qed.
+Print Assumptions C14_zbddv_never_wrong.
+
+Theorem C14_zbddv_never_wrong_sem : forall gt C cget cadd, zlossy C cget cadd -> 
+  forall cap par pin fuel s c k s' c' r,
+  ZbddOK s -> ZChainOK s -> ZCacheOKB C cget s c -> zvcall_ok s k -> ZFUEL s <= fuel ->
+  zvrun_c gt C cget cadd cap par pin fuel s c k = GOk s' c' r ->
+  ZbddOK s' /\ ZChainOK s' /\ ZCacheOKB C cget s' c' /\ intact_z s s' /\ ref_ok s' r /\ zvcall_spec s k s' r.
+Proof. exact zv_never_wrong_sem. Qed.
+Print Assumptions C14_zbddv_never_wrong_sem.
+
+Theorem C14_zbddv_safe : forall gt C cget cadd, zlossy C cget cadd -> 
+  forall cap par pin fuel s c k s' c',
+  ZbddOK s -> ZChainOK s -> ZCacheOKB C cget s c -> zvcall_ok s k -> ZFUEL s <= fuel ->
+  zvrun_c gt C cget cadd cap par pin fuel s c k = GOom s' c' -> zfailed_ok C cget cap s s' c'.
+Proof. exact zv_safe. Qed.
+Print Assumptions C14_zbddv_safe.
+
+Theorem C14_zbddv_no_panic : forall gt C cget cadd, zlossy C cget cadd -> 
+  forall cap par pin fuel s c k,
+  ZbddOK s -> ZChainOK s -> ZCacheOKB C cget s c -> zvcall_ok s k -> ZFUEL s <= fuel ->
+  zvrun_c gt C cget cadd cap par pin fuel s c k <> GStuck.
+Proof. exact zv_no_panic. Qed.
+Print Assumptions C14_zbddv_no_panic.
+
+Theorem C14_zbddv_exact : forall gt C cget cadd, zlossy C cget cadd -> 
+  forall cap par pin fuel s c k,
+  ZbddOK s -> ZChainOK s -> ZCacheOKB C cget s c -> zvcall_ok s k -> ZFUEL s <= fuel ->
+  exists su cu ru, zvrun_u gt C cget cadd fuel s c k = Some (su, cu, ru) /\ zvcall_spec s k su ru /\
+    zexact C cget cap s (zvrun_c gt C cget cadd cap par pin fuel s c k) su cu ru.
+Proof. exact zv_exact. Qed.
+Print Assumptions C14_zbddv_exact.
+
+Theorem C14_zbddv_outcome_recursor_indep : forall gt C cget cadd, zlossy C cget cadd -> 
+  forall cap par par' pin pin' fuel s c k,
+  ZbddOK s -> ZChainOK s -> ZCacheOKB C cget s c -> zvcall_ok s k -> ZFUEL s <= fuel ->
+  gres_code (zvrun_c gt C cget cadd cap par pin fuel s c k) = gres_code (zvrun_c gt C cget cadd cap par' pin' fuel s c k).
+Proof. exact zv_outcome_recursor_indep. Qed.
+Print Assumptions C14_zbddv_outcome_recursor_indep.
+
+Theorem C14_zbddv_retry : forall gt C cget cadd, 
+  forall cap par pin fuel s c k su cu ru,
+  zvrun_u gt C cget cadd fuel s c k = Some (su, cu, ru) -> node_count su <= cap ->
+  zvrun_c gt C cget cadd cap par pin fuel s c k = GOk su cu ru.
+Proof. exact zv_retry. Qed.
+Print Assumptions C14_zbddv_retry.
+
+Theorem C14_zbddv_monotone : forall gt C cget cadd, 
+  forall cap cap' par par' pin pin' fuel s c k s' c' r, cap <= cap' ->
+  zvrun_c gt C cget cadd cap par pin fuel s c k = GOk s' c' r -> zvrun_c gt C cget cadd cap' par' pin' fuel s c k = GOk s' c' r.
+Proof. exact zv_monotone. Qed.
+Print Assumptions C14_zbddv_monotone.
+
+Theorem C14_zbddv_call_ok_decided : forall s k, zvcall_ok_b s k = true <-> zvcall_ok s k.
+Proof. exact zv_call_ok_decided. Qed.
+Print Assumptions C14_zbddv_call_ok_decided.
+
+Theorem C14_zbddv_example_garbage : zv_garbage_ok 9 (zv_subset_nc 9 false ex_z4 ZChange (RN 3) 3) /\
+  zv_garbage_ok 10 (zv_subset_nc 10 true ex_z4 ZChange (RN 3) 3) /\
+  zv_garbage_ok 9 (zv_var_nc 9 ex_z4 3) /\
+  zv_garbage_ok 10 (zv_var_nc 10 ex_z4 3) /\
+  zv_garbage_ok 11 (zv_notvar_nc 11 false ex_z4 1) /\
+  zv_garbage_ok 9 (zv_restrict_nc 9 false ex_z4 (RT 1%N) (RN 4)) /\
+  zv_garbage_ok 8 (zv_restrict_nc 8 true ex_z4 (RN 3) (RN 5)).
+Proof. exact ex_zv_garbage. Qed.
+Print Assumptions C14_zbddv_example_garbage.
+
+Theorem C14_zbddv_example_exact : forall cap p,
+  (11 <= cap -> gres_code (zv_subset_nc cap p ex_z4 ZChange (RN 3) 3) = 0 /\ gres_code (zv_var_nc cap ex_z4 3) = 0) /\
+  (cap < 11 ->
+     (exists s' c', zv_subset_nc cap p ex_z4 ZChange (RN 3) 3 = GOom s' c' /\
+        zfailed_ok unit znc_get cap ex_z4 s' c') /\
+     (exists s' c', zv_var_nc cap ex_z4 3 = GOom s' c' /\ zfailed_ok unit znc_get cap ex_z4 s' c')) /\
+  (10 <= cap -> gres_code (zv_restrict_nc cap p ex_z4 (RT 1%N) (RN 4)) = 0) /\
+  (cap < 10 -> exists s' c', zv_restrict_nc cap p ex_z4 (RT 1%N) (RN 4) = GOom s' c' /\
+     zfailed_ok unit znc_get cap ex_z4 s' c').
+Proof. exact ex_zv_exact_consequence. Qed.
+Print Assumptions C14_zbddv_example_exact.
+
+(** ** 17. The TDD rule set: not, the 8 operators, ite, var (package C14z; Mgr/OomTdd.v, mirrors apply_not,
+    apply_bin, apply_ite_rec, var_edge of oxidd-rules-tdd/src/apply_rec.rs - sequential code, three recursive calls
+    each followed by [?]) *)
+
+Theorem C14_tdd_never_wrong : forall gt C cget cadd cap fuel s (c : C) k s' c' r,
+  trun_c gt C cget cadd cap fuel s c k = GOk s' c' r ->
+  trun_u gt C cget cadd fuel s c k = Some (s', c', r).
+Proof. exact tdd_never_wrong. Qed.
+Print Assumptions C14_tdd_never_wrong.
+
+Theorem C14_tdd_never_wrong_sem : forall gt C cget cadd, lossy cget cadd ->
+  forall cap fuel s (c : C) k s' c' r,
+  TdOK s -> TCacheOK cget s c -> tcall_ok s k -> S (nlevels s) <= fuel ->
+  trun_c gt C cget cadd cap fuel s c k = GOk s' c' r ->
+  TdOK s' /\ TCacheOK cget s' c' /\ intact_t s s' /\ ref_ok s' r /\ tcall_spec s k s' r.
+Proof. exact tdd_never_wrong_sem. Qed.
+Print Assumptions C14_tdd_never_wrong_sem.
+
+Theorem C14_tdd_safe : forall gt C cget cadd, lossy cget cadd ->
+  forall cap fuel s (c : C) k s' c',
+  TdOK s -> TCacheOK cget s c -> tcall_ok s k -> S (nlevels s) <= fuel ->
+  trun_c gt C cget cadd cap fuel s c k = GOom s' c' ->
+  TdOK s' /\ TCacheOK cget s' c' /\ extends s s' /\ intact_t s s' /\
+  node_count s <= node_count s' /\ cap <= node_count s'.
+Proof. exact tdd_safe. Qed.
+Print Assumptions C14_tdd_safe.
+
+Theorem C14_tdd_intact_meaning : forall s s', intact_t s s' ->
+  s_handles s' = s_handles s /\
+  s_v2l s' = s_v2l s /\ s_l2v s' = s_l2v s /\ s_terms s' = s_terms s /\
+  (forall id nd, find_node s id = Some nd -> find_node s' id = Some nd) /\
+  (forall r, ref_ok s r -> ref_ok s' r /\ forall k c0, semk s' k r c0 = semk s k r c0) /\
+  (forall r, ref_ok s r -> forall av, tfun_of s' r av = tfun_of s r av) /\
+  (forall h, In h (s_handles s) -> forall c0, sem_edge s' (snd h) c0 = sem_edge s (snd h) c0) /\
+  (forall id, find_node s id = None -> ~ reachable s' (handle_refs s') (RN id)) /\
+  (forall r, reachable s' (handle_refs s') r <-> reachable s (handle_refs s) r).
+Proof. exact tdd_intact_meaning. Qed.
+Print Assumptions C14_tdd_intact_meaning.
+
+Theorem C14_tdd_no_panic : forall gt C cget cadd, lossy cget cadd ->
+  forall cap fuel s (c : C) k,
+  TdOK s -> TCacheOK cget s c -> tcall_ok s k -> S (nlevels s) <= fuel ->
+  trun_c gt C cget cadd cap fuel s c k <> GStuck.
+Proof. exact tdd_no_panic. Qed.
+Print Assumptions C14_tdd_no_panic.
+
+Theorem C14_tdd_exact : forall gt C cget cadd, lossy cget cadd ->
+  forall cap fuel s (c : C) k,
+  TdOK s -> TCacheOK cget s c -> tcall_ok s k -> S (nlevels s) <= fuel ->
+  exists su cu ru, trun_u gt C cget cadd fuel s c k = Some (su, cu, ru) /\
+    tcall_spec s k su ru /\
+    (node_count su <= Nat.max cap (node_count s) ->
+       trun_c gt C cget cadd cap fuel s c k = GOk su cu ru) /\
+    (Nat.max cap (node_count s) < node_count su ->
+       exists s' c', trun_c gt C cget cadd cap fuel s c k = GOom s' c' /\
+         TdOK s' /\ TCacheOK cget s' c' /\ extends s s' /\ intact_t s s' /\
+         node_count s <= node_count s' /\ cap <= node_count s').
+Proof. exact tdd_exact. Qed.
+Print Assumptions C14_tdd_exact.
+
+Theorem C14_tdd_retry : forall gt C cget cadd cap fuel s (c : C) k su cu ru,
+  trun_u gt C cget cadd fuel s c k = Some (su, cu, ru) -> node_count su <= cap ->
+  trun_c gt C cget cadd cap fuel s c k = GOk su cu ru.
+Proof. exact tdd_retry. Qed.
+Print Assumptions C14_tdd_retry.
+
+Theorem C14_tdd_monotone : forall gt C cget cadd cap cap' fuel s (c : C) k s' c' r, cap <= cap' ->
+  trun_c gt C cget cadd cap fuel s c k = GOk s' c' r ->
+  trun_c gt C cget cadd cap' fuel s c k = GOk s' c' r.
+Proof. exact tdd_monotone. Qed.
+Print Assumptions C14_tdd_monotone.
+
+Theorem C14_tdd_var_exact : forall cap s v, TdOK s -> v < nlevels s ->
+  exists s' r, td_var s v = Some (s', r) /\ TdOK s' /\ extends s s' /\ intact_t s s' /\ ref_ok s' r /\
+    (forall av, tfun_of s' r av = av v) /\
+    (node_count s' <= Nat.max cap (node_count s) -> td_var_cap cap s v = Some (Some (s', r))) /\
+    (Nat.max cap (node_count s) < node_count s' ->
+       td_var_cap cap s v = Some None /\ cap <= node_count s).
+Proof. exact tdd_var_exact. Qed.
+Print Assumptions C14_tdd_var_exact.
+
+Theorem C14_tdd_var_never_wrong : forall cap s v s' r,
+  td_var_cap cap s v = Some (Some (s', r)) -> td_var s v = Some (s', r).
+Proof. exact tdd_var_never_wrong. Qed.
+Print Assumptions C14_tdd_var_never_wrong.
+
+Theorem C14_tdd_nc_exact : forall cap s k, td_ok_b s = true -> tcall_ok_b s k = true ->
+  trun_nc cap s k <> GStuck /\
+  exists su cu ru, trun_unc s k = Some (su, cu, ru) /\
+    td_ok_b su = true /\ tcall_spec s k su ru /\
+    (node_count su <= Nat.max cap (node_count s) -> trun_nc cap s k = GOk su cu ru) /\
+    (Nat.max cap (node_count s) < node_count su ->
+       exists s' c', trun_nc cap s k = GOom s' c' /\
+         td_ok_b s' = true /\ extends s s' /\ intact_t s s' /\
+         node_count s <= node_count s' /\ cap <= node_count s').
+Proof. exact tdd_nc_exact. Qed.
+Print Assumptions C14_tdd_nc_exact.
+
+Theorem C14_tdd_example_garbage : match tnot_nc 8 ext3 (RN 5) with
+  | GOom s' _ =>
+      s_handles s' = s_handles ext3 /\ td_ok_b s' = true /\ node_count s' = 8 /\
+      forallb (fun p => match find_node s' (fst p) with
+                        | Some nd => same_node nd (snd p) | None => false end)
+              (PositiveMap.elements (s_nodes ext3)) = true
+  | _ => False
+  end.
+Proof. exact ext3_not_garbage. Qed.
+Print Assumptions C14_tdd_example_garbage.
+
+Theorem C14_tdd_example_exact : forall cap,
+  (10 <= cap -> gres_code (tbin_nc cap ext3 Xor (RN 5) (RN 4)) = 0) /\
+  (cap < 10 -> exists s' c', tbin_nc cap ext3 Xor (RN 5) (RN 4) = GOom s' c' /\
+                TdOK s' /\ intact_t ext3 s' /\ cap <= node_count s').
+Proof. exact ext3_exact_consequence. Qed.
+Print Assumptions C14_tdd_example_exact.
+
